@@ -57,11 +57,14 @@ def check(rep, tier, seed):
                     refn = [int(x.split(":")[0]) for x in l.split()[2:]]
                 if l.startswith("prop ") and "FAIL" in l:
                     bad_prop.append({"kind": l, "case": kk, "meta": m, "cases_file": cfile})
-                if l.startswith("holes ") and int(l.split()[1]) != 0:
+                if l.startswith("holes ") and l.split()[1:2] not in ([], ["0"]):
                     bad_prop.append({"kind": "hole/error indication on an intact stream: " + l, "case": kk, "meta": m, "cases_file": cfile})
                 if l.startswith("op rf:"):
                     t = l.split()
-                    rc, lk = int(t[3]), int(t[-1])
+                    try:
+                        rc, lk = int(t[3]), int(t[-1])
+                    except (ValueError, IndexError):
+                        continue          # line cut short by a crash/watchdog: reported through the exit status
                     if rc > 0:
                         got[lk] = got.get(lk, 0) + rc
                     elif rc < 0:
